@@ -806,10 +806,17 @@ func TestVerifC02Spec(t *testing.T) {
 	gateName := string(features.ElasticQuotaGuaranteeUsage)
 	defer utilfeature.DefaultMutableFeatureGate.Set(gateName + "=false")
 	n := h.N(700, 15000)
-	for idx := 0; idx < n; idx++ {
+	// pinned corpus: histories (generator seed, case) known to exhibit an open finding that the random stream of
+	// a given seed may not reach; they run after the random cases as cases n, n+1, ... whatever VERIF_SEED is.
+	pinned := [][2]uint64{{5, 537}} // C02:guarantee-cache-stale-after-dimension-readd
+	for idx := 0; idx < n+len(pinned); idx++ {
 		r := h.Begin(idx)
 		if r == nil {
 			continue
+		}
+		if idx >= n {
+			r = vNewRand(pinned[idx-n][0], pinned[idx-n][1])
+			h.Tag("spec:pinned-corpus-case")
 		}
 		w := &c02World{gate: r.Chance(1, 4), scale: r.Chance(1, 3)}
 		if err := utilfeature.DefaultMutableFeatureGate.Set(fmt.Sprintf("%s=%v", gateName, w.gate)); err != nil {
